@@ -19,8 +19,11 @@
 EXTENDS Ordering, TLC
 
 CONSTANT Scenarios
-VARIABLES sc, loaded, ci, stage, pdone, ran, status, cst, closeRet, initCnt
-vars == <<sc, loaded, ci, stage, pdone, ran, status, cst, closeRet, initCnt>>
+VARIABLES sc, loaded, ci, stage, pdone, ran, status, cst, closeRet, initCnt, early
+vars == <<sc, loaded, ci, stage, pdone, ran, status, cst, closeRet, initCnt, early>>
+\* early  : processors whose GetEarlyBeanReference callback has been invoked (sc.cycle: the first component closes a dependency
+\*          cycle with a component created before it, so that component's early reference is requested while the first one is
+\*          populated - one more place where the container walks the post-processors in the contract's sequence)
 \* loaded : loaders invoked so far (sequence of indices)   ci : component being initialised (1..K+1)
 \* stage  : "before" | "init" | "after"                    pdone : processors invoked in this stage
 \* ran    : runners invoked so far                          status : "run" | "failed" | "ok" | "err"
@@ -32,7 +35,7 @@ FirstStage(s) == IF Len(s.procs) = 0 THEN "init" ELSE "before"
 InitWith(s) ==
   /\ sc = s /\ loaded = <<>> /\ ci = 1 /\ stage = FirstStage(s) /\ pdone = <<>> /\ ran = <<>>
   /\ status = "run" /\ cst = [j \in 1..Len(s.closers) |-> "idle"] /\ closeRet = FALSE
-  /\ initCnt = [c \in 1..s.comps |-> 0]
+  /\ initCnt = [c \in 1..s.comps |-> 0] /\ early = <<>>
 Init == \E s \in Scenarios : InitWith(s)
 
 ConfigDone == Len(loaded) = NL
@@ -41,28 +44,35 @@ Load(i) ==
   /\ status = "run" /\ ~ConfigDone /\ NextAllowed(sc.loaders, loaded, i)
   /\ loaded' = Append(loaded, i)
   /\ status' = IF sc.loaders[i].fail THEN "failed" ELSE status
-  /\ UNCHANGED <<sc, ci, stage, pdone, ran, cst, closeRet, initCnt>>
+  /\ UNCHANGED <<sc, ci, stage, pdone, ran, cst, closeRet, initCnt, early>>
 
 Creating == status = "run" /\ ConfigDone /\ ci <= K
+\* EVENT early(p): before the first component's own callbacks start, every processor has handed out the early reference
+EarlyDone == ~sc.cycle \/ ci # 1 \/ Len(early) = NP
+Early(p) ==
+  /\ Creating /\ sc.cycle /\ ci = 1 /\ stage = FirstStage(sc) /\ pdone = <<>> /\ initCnt[1] = 0
+  /\ Len(early) < NP /\ NextAllowed(sc.procs, early, p)
+  /\ early' = Append(early, p)
+  /\ UNCHANGED <<sc, loaded, ci, stage, pdone, ran, status, cst, closeRet, initCnt>>
 \* EVENT before(c, p)
 Before(p) ==
-  /\ Creating /\ stage = "before" /\ NextAllowed(sc.procs, pdone, p)
+  /\ Creating /\ EarlyDone /\ stage = "before" /\ NextAllowed(sc.procs, pdone, p)
   /\ IF Len(pdone) + 1 = NP THEN stage' = "init" /\ pdone' = <<>> ELSE pdone' = Append(pdone, p) /\ UNCHANGED stage
-  /\ UNCHANGED <<sc, loaded, ci, ran, status, cst, closeRet, initCnt>>
+  /\ UNCHANGED <<sc, loaded, ci, ran, status, cst, closeRet, initCnt, early>>
 \* EVENT init(c, ok)
 InitC ==
-  /\ Creating /\ stage = "init"
+  /\ Creating /\ EarlyDone /\ stage = "init"
   /\ initCnt' = [initCnt EXCEPT ![ci] = @ + 1]
   /\ IF sc.initFail = ci THEN status' = "failed" /\ UNCHANGED <<ci, stage>>
      ELSE /\ UNCHANGED status
           /\ IF NP = 0 THEN ci' = ci + 1 /\ UNCHANGED stage ELSE stage' = "after" /\ UNCHANGED ci
-  /\ UNCHANGED <<sc, loaded, pdone, ran, cst, closeRet>>
+  /\ UNCHANGED <<sc, loaded, pdone, ran, cst, closeRet, early>>
 \* EVENT after(c, p)
 After(p) ==
   /\ Creating /\ stage = "after" /\ NextAllowed(sc.procs, pdone, p)
   /\ IF Len(pdone) + 1 = NP THEN stage' = "before" /\ pdone' = <<>> /\ ci' = ci + 1
      ELSE pdone' = Append(pdone, p) /\ UNCHANGED <<stage, ci>>
-  /\ UNCHANGED <<sc, loaded, ran, status, cst, closeRet, initCnt>>
+  /\ UNCHANGED <<sc, loaded, ran, status, cst, closeRet, initCnt, early>>
 
 Ready == status = "run" /\ ConfigDone /\ ci = K + 1
 \* EVENT run(i, ok)
@@ -70,24 +80,24 @@ RunnerRun(i) ==
   /\ Ready /\ NextAllowed(sc.runners, ran, i)
   /\ ran' = Append(ran, i)
   /\ status' = IF sc.runners[i].fail THEN "failed" ELSE status
-  /\ UNCHANGED <<sc, loaded, ci, stage, pdone, cst, closeRet, initCnt>>
+  /\ UNCHANGED <<sc, loaded, ci, stage, pdone, cst, closeRet, initCnt, early>>
 \* EVENT runReturn(ok)
 RunReturn ==
   /\ \/ status = "failed" /\ status' = "err"
      \/ Ready /\ Len(ran) = NR /\ status' = "ok"
-  /\ UNCHANGED <<sc, loaded, ci, stage, pdone, ran, cst, closeRet, initCnt>>
+  /\ UNCHANGED <<sc, loaded, ci, stage, pdone, ran, cst, closeRet, initCnt, early>>
 
 \* ---- App.Close (after a successful start)
 CloserBegin(j) == /\ j \in 1..NC /\ status = "ok" /\ ~closeRet /\ cst[j] = "idle" /\ cst' = [cst EXCEPT ![j] = "begun"]
-                  /\ UNCHANGED <<sc, loaded, ci, stage, pdone, ran, status, closeRet, initCnt>>
+                  /\ UNCHANGED <<sc, loaded, ci, stage, pdone, ran, status, closeRet, initCnt, early>>
 CloserEnd(j)   == /\ j \in 1..NC /\ cst[j] = "begun" /\ cst' = [cst EXCEPT ![j] = "ended"]
-                  /\ UNCHANGED <<sc, loaded, ci, stage, pdone, ran, status, closeRet, initCnt>>
+                  /\ UNCHANGED <<sc, loaded, ci, stage, pdone, ran, status, closeRet, initCnt, early>>
 CloseReturn    == /\ status = "ok" /\ ~closeRet /\ \A j \in 1..NC : cst[j] = "ended"
                   /\ closeRet' = TRUE
-                  /\ UNCHANGED <<sc, loaded, ci, stage, pdone, ran, status, cst, initCnt>>
+                  /\ UNCHANGED <<sc, loaded, ci, stage, pdone, ran, status, cst, initCnt, early>>
 
 Next == \/ \E i \in 1..NL : Load(i)
-        \/ \E p \in 1..NP : Before(p) \/ After(p)
+        \/ \E p \in 1..NP : Before(p) \/ After(p) \/ Early(p)
         \/ InitC
         \/ \E i \in 1..NR : RunnerRun(i)
         \/ RunReturn
@@ -101,6 +111,7 @@ FairSpec == Spec /\ WF_vars(CloseReturn) /\ \A j \in 1..4 : WF_vars(CloserBegin(
 C12_Loaders == IsSortedPrefix(loaded, sc.loaders)
 C12_Runners == IsSortedPrefix(ran, sc.runners)
 C12_Procs   == IsSortedPrefix(pdone, sc.procs)
+C12_Early   == IsSortedPrefix(early, sc.procs)
 \* C13
 C13_Once == \A a, b \in 1..Len(ran) : a # b => ran[a] # ran[b]
 C13_All == status = "ok" => Range(ran) = 1..NR
